@@ -113,13 +113,11 @@ macro_rules! c10_family {
         /// `apply_in_place`: `f` is called exactly `len` times, in index
         /// order, on the current values, and each result is stored; the
         /// backend may have spare words.
-        #[kani::proof]
-        #[kani::unwind(10)]
-        pub fn apply_in_place() {
+        fn apply_in_place_path(pow2: bool) {
             const K: usize = $APPLY_MAX;
             let words: [W; N] = kani::any();
             let w: usize = kani::any();
-            kani::assume(w >= 1 && w <= B);
+            kani::assume(w >= 1 && w <= B && w.is_power_of_two() == pow2);
             let len: usize = kani::any();
             kani::assume(len <= K && len * w <= N * B);
             let mut v = unsafe { Arr::from_raw_parts(words, w, len) };
@@ -138,10 +136,24 @@ macro_rules! c10_family {
             kani::assume(q < len);
             assert_eq!(seen[q], $refget(&words, w, q));
             assert_eq!(v.get(q), table[q] & wmask(w));
-            kani::cover!(len == K && !w.is_power_of_two(), "general path, full length");
-            kani::cover!(len > 1 && w.is_power_of_two() && w < B, "power-of-two path");
+            kani::cover!(len == K, "full length");
+            kani::cover!(len > 1 && (!pow2 || w < B), "several elements");
             kani::cover!(len > 0 && (len * w).div_ceil(B) < N, "spare trailing words");
-            kani::cover!(len > 0 && w == B, "full width");
+            kani::cover!(!pow2 || (len > 0 && w == B), "full width");
+        }
+
+        /// `apply_in_place`, power-of-two widths (the buffered fast path and the full-width case).
+        #[kani::proof]
+        #[kani::unwind(10)]
+        pub fn apply_in_place_pow2() {
+            apply_in_place_path(true);
+        }
+
+        /// `apply_in_place`, all other widths (the general path).
+        #[kani::proof]
+        #[kani::unwind(10)]
+        pub fn apply_in_place_general() {
+            apply_in_place_path(false);
         }
 
         /// Trait-default `apply_in_place` on a plain implementor.
